@@ -22,6 +22,15 @@ for f in ("cutil", "default_records", "legacy_records", "memory_records"):
 allq = sorted(out)
 out = {q: v for q, v in out.items() if v}
 out["__functions__"] = allq
+out["__params__"] = {q: [a.arg for a in fi.node.args.posonlyargs + fi.node.args.args] for q, fi in repo.funcs.items()}
+import ast as _ast  # noqa: E402
+out["__attrs__"] = {}
+for mname, m in repo.modules.items():
+    for c in m.tree.body:
+        if isinstance(c, _ast.ClassDef):
+            sig = alpha.class_attr_signatures(c)
+            if sig:
+                out["__attrs__"][f"{mname}.{c.name}"] = sig
 from sa import normalise  # noqa: E402
 out["__comprehensions__"] = {q: normalise.count_comprehensions(fi.node) for q, fi in repo.funcs.items() if normalise.count_comprehensions(fi.node)}
 json.dump(out, open(alpha.BASELINE, "w"), indent=0, sort_keys=True)
